@@ -52,9 +52,3 @@ func cmdReplay(args []string) int {
 	return 0
 }
 
-func cmdSelftest(args []string) int {
-	fmt.Println("selftest: not built yet")
-	return 0
-}
-
-func runThoroughExtras(ps *PropSpec, rep *Report, opts Options) {}
